@@ -3,7 +3,7 @@
    the rules give, carries the key that is the closed function of that position, and a key history equal to the keys of the positions of
    the game. *)
 From CV Require Import Chess.Rules Chess.History Chess.HistoryKeys Chess.ValidStep Chess.GameInv Engine.PositionRep Engine.RepAbs Engine.RepRefine
-  Engine.RepRefineLegal Engine.KeyScratch Engine.KeyScratchMove Engine.KeyScratchInit Engine.HistoryRefine Engine.PolyglotProofs Engine.RepProofs Engine.RepRoundTrip Engine.RepRoundTripLegal.
+  Engine.RepRefineLegal Engine.KeyScratch Engine.KeyScratchMove Engine.KeyScratchInit Engine.HistoryRefine Engine.PolyglotProofs Engine.RepProofs Engine.RepRoundTrip Engine.RepRoundTripLegal Engine.Material.
 From Coq Require Import List NArith ZArith Lia Bool.
 Import ListNotations.
 Local Open Scope N_scope.
@@ -139,7 +139,7 @@ Section WithTables.
     destruct Ia as [Ka [_ [Sa [Ca _]]]]. destruct Ib as [Kb [_ [Sb [Cb _]]]].
     split.
     - rewrite (state_key zt a Ka Sa Ca), (state_key zt b Kb Sb Cb), Ra, Rb. apply Kpos_sound. exact Hsame.
-    - destruct (Ka) as [[La [_ [Coda [_ [_ [_ [_ Pa]]]]]]] _]. destruct (Kb) as [[Lb [_ [Codb [_ [_ [_ [_ Pb]]]]]]] _].
+    - destruct (Ka) as [[La [_ [Coda [_ [_ [_ [_ [Pa _]]]]]]]] _]. destruct (Kb) as [[Lb [_ [Codb [_ [_ [_ [_ [Pb _]]]]]]]] _].
       rewrite Pa, Pb. rewrite <- (map_code_inv (r_board a) Coda La), <- (map_code_inv (r_board b) Codb Lb).
       change (map code_piece (r_board a)) with (brd (rep_abs a)). change (map code_piece (r_board b)) with (brd (rep_abs b)). rewrite Ra, Rb.
       unfold same_position in Hsame. repeat (apply andb_prop in Hsame; destruct Hsame as [Hsame ?]).
@@ -173,6 +173,15 @@ Section WithTables.
     intros Hg Hc Hf Hl Hn Hm s. destruct (game_refines p0 ms Hg Hc Hf Hl Hn) as [Ra [Ia _]]. fold s in Ra, Ia.
     apply undo_do_legal; [apply state_inv_rep_ok; exact Ia|apply state_inv_key_ok; exact Ia|].
     rewrite Ra. unfold legal in Hm. apply andb_prop in Hm as [A _]. exact A.
+  Qed.
+
+  (* insufficient material along every legal game: the engine's list-based count is the rules' board count *)
+  Theorem game_material (p0 : position) (ms : list move) :
+    game_inv p0 -> (0 <= clock p0)%Z -> (1 <= fullmove p0)%Z -> legal_line p0 ms = true -> (clock p0 + Z.of_nat (length ms) < 255)%Z ->
+    enough_material (play_rep zt (rep_of_position zt p0) ms) = negb (insufficient_material (brd (play p0 ms))).
+  Proof.
+    intros Hg Hc Hf Hl Hn. destruct (game_refines p0 ms Hg Hc Hf Hl Hn) as [Ra [[[Hp _] _] _]].
+    rewrite <- Ra. apply (enough_material_refines zt). exact Hp.
   Qed.
 
   Lemma valid_hyps (p : position) : valid_position p = true -> game_inv p /\ (0 <= clock p)%Z /\ (1 <= fullmove p)%Z.
